@@ -667,6 +667,97 @@ func declaredLengthProbe(c *Ctx) {
 	}
 }
 
+// freshPoolProbe: the very first compressed request a handler sees is not compressed data at
+// all (a fresh decompressor, never successfully reset): invalid_argument in a well-formed
+// response, no panic - with the built-in gzip too (round 10, C07-mm).
+func freshPoolProbe(c *Ctx) {
+	for _, proto := range []string{"connect", "grpc", "grpcweb"} {
+		for _, kind := range []string{"unary", "client"} {
+			for _, enc := range []string{"gzip", "rle"} {
+				runs := 0
+				opts := []connect.HandlerOption{connect.WithCodec(rawCodec{"raw"}), connect.WithCompression("rle", newRLEDecompressor, newRLECompressor)}
+				var h http.Handler
+				if kind == "unary" {
+					h = connect.NewUnaryHandler("/s/m", func(ctx context.Context, r *connect.Request[[]byte]) (*connect.Response[[]byte], error) {
+						runs++
+						return connect.NewResponse(&[]byte{1}), nil
+					}, opts...)
+				} else {
+					h = connect.NewClientStreamHandler("/s/m", func(ctx context.Context, s *connect.ClientStream[[]byte]) (*connect.Response[[]byte], error) {
+						for s.Receive() {
+							runs++
+						}
+						return connect.NewResponse(&[]byte{1}), s.Err()
+					}, opts...)
+				}
+				desc := fmt.Sprintf("fresh %s %s handler; its first request says %s and carries bytes that are no %s at all", proto, kind, enc, enc)
+				c.Begin(desc)
+				c.Count("fresh-pool-probe")
+				got := safely(func() string {
+					body := []byte("this is definitely not compressed data")
+					if enc == "rle" {
+						body = []byte{0, 7, 0} // a zero count and a dangling byte
+					}
+					if !(proto == "connect" && kind == "unary") {
+						body = frame(1, body)
+					}
+					req := httptest.NewRequest(http.MethodPost, "/s/m", bytes.NewReader(body))
+					req.ProtoMajor, req.ProtoMinor, req.Proto = 2, 0, "HTTP/2.0"
+					req.Header.Set("Content-Type", ctFor(proto, kind, "raw"))
+					encH, _ := encHeaderFor(proto, kind)
+					req.Header.Set(encH, enc)
+					rec := httptest.NewRecorder()
+					h.ServeHTTP(rec, req)
+					code, note := responseErrorCode(proto, kind, rec)
+					return fmt.Sprintf("delivered=%d code=%d malformed=%q", runs, code, strings.TrimSpace(note))
+				})
+				if got != "delivered=0 code=3 malformed=\"\"" {
+					c.Fail("req-fresh-pool", desc, got, "an undecodable payload reaches the peer as invalid_argument in a well-formed response, without a panic")
+				}
+			}
+		}
+	}
+}
+
+// unofferedEncodingProbe: a response is compressed only with an algorithm the peer named - as a
+// whole token of its accept list, not as a substring of one (round 10, C05-mn).
+func unofferedEncodingProbe(c *Ctx) {
+	for _, proto := range []string{"connect", "grpc", "grpcweb"} {
+		for _, kind := range []string{"unary", "server"} {
+			for _, accept := range []string{"rle-x, br", "x-rle", "prle, rlex", "brle,zz"} {
+				opts := []connect.HandlerOption{connect.WithCodec(rawCodec{"raw"}), connect.WithCompression("rle", newRLEDecompressor, newRLECompressor), connect.WithCompressMinBytes(0)}
+				var h http.Handler
+				big := bytes.Repeat([]byte{7}, 64)
+				if kind == "unary" {
+					h = connect.NewUnaryHandler("/s/m", func(ctx context.Context, r *connect.Request[[]byte]) (*connect.Response[[]byte], error) {
+						return connect.NewResponse(&big), nil
+					}, opts...)
+				} else {
+					h = connect.NewServerStreamHandler("/s/m", func(ctx context.Context, r *connect.Request[[]byte], s *connect.ServerStream[[]byte]) error {
+						return s.Send(&big)
+					}, opts...)
+				}
+				body := []byte{1}
+				if !(proto == "connect" && kind == "unary") {
+					body = frame(0, body)
+				}
+				req := httptest.NewRequest(http.MethodPost, "/s/m", bytes.NewReader(body))
+				req.ProtoMajor, req.ProtoMinor, req.Proto = 2, 0, "HTTP/2.0"
+				req.Header.Set("Content-Type", ctFor(proto, kind, "raw"))
+				encH, accH := encHeaderFor(proto, kind)
+				req.Header.Set(accH, accept)
+				rec := httptest.NewRecorder()
+				h.ServeHTTP(rec, req)
+				desc := fmt.Sprintf("%s %s handler with gzip and rle; the peer accepts %q", proto, kind, accept)
+				c.Count("unoffered-encoding-probe")
+				if enc := rec.Result().Header.Get(encH); enc != "" && enc != "identity" {
+					c.Fail("wire-unoffered-encoding", desc, "response encoding "+enc, "the response names an algorithm the peer did not offer")
+				}
+			}
+		}
+	}
+}
+
 func streamReq(c *Ctx) {
 	if strings.HasPrefix(replayOp, "u8 ") {
 		invalidUTF8PayloadProbe(c) // the u8 operations are emitted there
@@ -678,6 +769,8 @@ func streamReq(c *Ctx) {
 	}
 	sealedProbe(c)
 	nilConstructorProbe(c)
+	freshPoolProbe(c)
+	unofferedEncodingProbe(c)
 	declaredLengthProbe(c)
 	invalidUTF8PayloadProbe(c)
 	r := c.Rng
@@ -712,6 +805,14 @@ func streamReq(c *Ctx) {
 						flat := append(frame(0, []byte{1}), frame(fl, bytes.Repeat([]byte{'x'}, n))...)
 						hreqOp(c, fmt.Sprintf("hreq proto=%s kind=%s max=8 sent=- tmo=- flat=%s tail=eof seg=-", proto, kind, hx(flat)))
 					}
+				}
+			}
+			// the end of the body as an error that *wraps* io.EOF: at a boundary, inside a prefix,
+			// inside a payload - the same verdicts as for io.EOF itself (round 10, C04-mn)
+			if !(proto == "connect" && kind == "unary") {
+				one := frame(0, []byte{1, 2, 3})
+				for _, flat := range [][]byte{one, append(append([]byte{}, one...), 0), append(append([]byte{}, one...), 0, 0, 0), append(append([]byte{}, one...), 0, 0, 0, 0), append(append([]byte{}, one...), 0, 0, 0, 0, 9, 1), one[:7], {0, 0}} {
+					hreqOp(c, fmt.Sprintf("hreq proto=%s kind=%s max=0 sent=- tmo=- flat=%s tail=weof seg=-", proto, kind, hx(flat)))
 				}
 			}
 			for _, sent := range []string{"gz\xffip", "\xc3\x28"} {
